@@ -6,8 +6,8 @@ package main
 // instrumented from here (the only hook is the step counter of build tag `verif`), and a check on step counts alone
 // says nothing about a single loop.  The tie therefore is
 //   (1) the skeletons, contracts and the loop inventory are regenerated from the working tree on every run and the
-//       Lean obligations over them (`DC.Props.C02.all_contracts_check`, `all_loops_certified`,
-//       `uncertified_are_assumed`, `cursor_only_in_nextToken`) are re-checked by `lake build`;
+//       Lean obligations over them (`DC.Props.C02.all_contracts_check`, `all_loops_certified`, `all_ranks_check`,
+//       `all_function_loops_covered`, `uncertified_are_assumed`, `cursor_only_in_nextToken`) are re-checked by `lake build`;
 //   (2) the translator's soundness argument (header of /verif/extract/loops.go);
 //   (3) the step-budget search of runC02 over the mutation spaces;
 //   (4) one-off, outside the harness: /verif/design-probes/skel-dynamic instruments a COPY of package parser (entry/exit
